@@ -7,6 +7,8 @@
 pub mod util;
 #[cfg(feature = "c05")]
 pub mod c05;
+#[cfg(feature = "c06")]
+pub mod c06;
 #[cfg(feature = "c10")]
 pub mod c10;
 
